@@ -51,7 +51,7 @@ def run(ctx, R):
         R.inst('C04.R', 'read-inside-header', True, expected='all reads on accepting paths below 16+L', found='%d reads inspected' % n_read, entry=p)
         R.floor('v2 length guards on accepting paths', n_guard, 48)
         R.floor('v2 reads on accepting paths', n_read, 100)
-    C06.auto_table(ctx, R, 'C04.H')
+    C06.auto_table(ctx, R, 'C04.H', only=['v2 accepts', 'v2 terminal'])
     try:
         from rules import v1model
         v1model.c04_w(ctx, R)
